@@ -3,10 +3,12 @@ from __future__ import annotations
 import ast
 import collections
 import copy
+import io
 import itertools
 import re
 import string
 import textwrap
+import tokenize
 from pathlib import Path
 from typing import Collection, Iterable, List, Literal, Mapping, Sequence, Tuple
 
@@ -186,6 +188,22 @@ def _fix_variable_names(
     return source
 
 
+def _logical_line_end(source: str, lineno: int) -> int:
+    """Number of the physical line on which the logical line that contains line `lineno` ends. A backslash
+    continues a statement past its end_lineno, be it onto a blank line or a comment."""
+    if lineno <= 0:
+        return lineno
+
+    try:
+        for token in tokenize.generate_tokens(io.StringIO(source, newline="").readline):
+            if token.type == tokenize.NEWLINE and token.start[0] >= lineno:
+                return token.start[0]
+    except (tokenize.TokenError, SyntaxError, ValueError):
+        pass
+
+    return lineno
+
+
 def _import_insertion_line(source: str, lines: Sequence[str]) -> int:
     """Index in lines before which new imports go: after the leading comments, the module docstring and the
     __future__ imports, each of which may span several lines."""
@@ -206,7 +224,7 @@ def _import_insertion_line(source: str, lines: Sequence[str]) -> int:
             break
         last_lineno = max(last_lineno, node.end_lineno)
 
-    lineno = min(last_lineno, len(lines))
+    lineno = min(_logical_line_end(source, last_lineno), len(lines))
     while lineno < len(lines) and lines[lineno].startswith("#"):
         lineno += 1
 
